@@ -42,6 +42,9 @@ class CacheModel:
         if self.fi is None:
             raise Undecided('anchor CodeGenerator.generate_code not found')
         self.w = repo.walker(max_paths=max_paths, tag=tagger)
+        # the cache protocol holds under every interpreter configuration: a cookie comparison written
+        # as an assert statement does not exist under python -O / PYTHONOPTIMIZE
+        self.w.strip_asserts = True
         self.paths = self.w.paths(self.fi.node, cls=cg)
         self.parents = {}
         for p in ast.walk(self.fi.node):
